@@ -18,6 +18,11 @@ import families  # noqa: E402
 import props  # noqa: E402
 
 
+def mp_children():
+    import multiprocessing
+    return multiprocessing.active_children()
+
+
 def main():
     ap = argparse.ArgumentParser()
     ap.add_argument("prop")
@@ -42,12 +47,33 @@ def main():
             not os.path.exists(os.path.join(VERIF, "lean", ".lake", "build", "bin", "driver")):
         rep.infra_errors.append("driver binary missing and lake build failed")
     findings_lines = []
+    # watchdog: a call of the code under test that never returns (outside the per-call limits of the play families) must
+    # end the check with a verdict, not hang it
+    import signal
+    import threading
+    from common import Timeout
+    budget = float(os.environ.get("VERIF_WATCHDOG_S", "900" if tier == "quick" else "14400"))
+
+    def _bark(signum, frame):
+        raise Timeout()
+    signal.signal(signal.SIGUSR1, _bark)
+    dog = threading.Timer(budget, lambda: os.kill(os.getpid(), signal.SIGUSR1))
+    dog.daemon = True
+    dog.start()
     try:
         spec["run"](rep)
         findings_lines = props.replay_findings(a.prop, rep)
+    except Timeout:
+        rep.violations.append({"cls": None, "family": "watchdog",
+                               "what": f"the check did not finish within {budget:.0f} s: some call of the code under test does not terminate "
+                                       "(or became pathologically slow); the families completed so far are in the evidence file"})
+        for ch in mp_children():
+            ch.kill()
     except Exception as e:  # noqa
         rep.infra_errors.append("check crashed: " + "".join(traceback.format_exception_only(type(e), e)).strip())
         traceback.print_exc()
+    finally:
+        dog.cancel()
     rep.coverage["rule"] = spec.get("rule", "")
     return rep.finish(findings_lines, level=spec.get("level", "proof"), assumptions=spec.get("assumptions"))
 
